@@ -68,6 +68,8 @@ func NumVariants(c string) int {
 		return 11
 	case "admok":
 		return 3
+	case "admcall":
+		return 4
 	case "oog":
 		return 1
 	}
@@ -99,6 +101,19 @@ func Concretize(t ATx, variant int) []byte {
 		return SignedTx(k, t.N, &tgt, 0, gas, 0, []byte{2})
 	case "loop":
 		return SignedTx(k, t.N, &tgt, 0, gas, 0, []byte{4})
+	case "admcall": // the counter contract CALLs 0xfe with calldata[1:] (short / well-formed / overlong)
+		var payload []byte
+		switch variant % 4 {
+		case 0:
+			payload = nil
+		case 1:
+			payload = make([]byte, 31)
+		case 2:
+			payload = AdminInput(uint64(20+len(AdminOK)), from, AdminOK, 0)
+		case 3:
+			payload = AdminInput(^uint64(0), from, AdminOK, 0xff)
+		}
+		return SignedTx(k, t.N, &tgt, 0, gas, 0, append([]byte{5}, payload...))
 	case "pre":
 		addr := common.BytesToAddress([]byte{byte(1 + variant%8)})
 		var in []byte
